@@ -358,7 +358,7 @@ func allScenarios() []scenario {
 	out := append([]scenario{}, scenarios...)
 	out = append(out, commitThenProposal)
 	out = append(out, staleBlock)
-	for v := 2; v <= 10; v++ {
+	for v := 2; v <= 11; v++ {
 		out = append(out, invalidBlockScenario(v, false), invalidBlockScenario(v, true))
 	}
 	out = append(out, cachePrimed)
